@@ -23,7 +23,8 @@ def nudge(x, k):
     return y
 
 
-def special_points(cls, kw, rng, nps):
+def special_points(cls, kw, rng, nps, acc=None):
+    acc = [] if acc is None else acc  # indices of the observers with an accuracy assertion (triangle-sheet classes)
     pts = [[0.0, 0.0, 0.0], [1e12, -3e11, 2e11], [5e-324, 0, 0], [0, 0, 1e-200], [1e-160, 1e-160, 1e-160]]
     vals = lambda c: [c, nudge(c, 1), nudge(c, -1), nudge(c, 4), nudge(c, -4), -c]
     if cls == "Cuboid":
@@ -93,15 +94,34 @@ def special_points(cls, kw, rng, nps):
         if len(v) >= 3:
             pts.append(list(v[:3].mean(axis=0)))  # in a face plane
         if cls != "Polyline" and len(v) >= 3:
-            # next to a vertex, displaced perpendicular to an edge that ends there by 1e-10 ... 1e-6 edge lengths (the cone of
-            # the second branch of the edge integral of triangle_Bfield; Props/C15 triangle_cap_singular)
-            for _ in range(4):
-                i, j = rng.sample(range(len(v)), 2)
-                L = v[j] - v[i]
+            # close to an edge line of the sheet(s), where the earlier edge integral switched formulas inside a cone (`ind <= 1e-12 l`)
+            # and returned NaN / values wrong by O(polarization); the repaired kernel is ASSERTED to be finite and accurate here
+            # (reference: oracles/tri_reference.py).  Tagged in `acc`.
+            def perp(L):
                 d = np.cross(L, nps.normal(size=3))
-                if np.linalg.norm(d) > 0 and np.linalg.norm(L) > 0:
-                    d = d / np.linalg.norm(d) * np.linalg.norm(L) * 10.0 ** rng.choice([-10, -9.5, -9, -8.5, -7, -6])
-                    pts.append(list(v[j] + d))
+                return d / np.linalg.norm(d) * np.linalg.norm(L) if np.linalg.norm(d) > 0 and np.linalg.norm(L) > 0 else None
+            for _ in range(4):  # next to a vertex, displaced perpendicular to an edge that ends there by 1e-10 ... 1e-6 edge lengths
+                i, j = rng.sample(range(len(v)), 2)
+                d = perp(v[j] - v[i])
+                if d is not None:
+                    acc.append(len(pts))
+                    pts.append(list(v[j] + d * 10.0 ** rng.choice([-10, -9.5, -9, -8.5, -7, -6])))
+            for _ in range(3):  # inside the former cone beyond the end vertex: 1e-6 ... 2 edge lengths out, 1e-12 ... 1e-5 off the line
+                i, j = rng.sample(range(len(v)), 2)
+                d = perp(v[j] - v[i])
+                if d is not None:
+                    acc.append(len(pts))
+                    pts.append(list(v[j] + rng.choice([1e-6, 1e-3, 0.3, 2.0]) * (v[j] - v[i]) + d * 10.0 ** rng.choice([-12, -10, -8, -7, -6, -5])))
+            for _ in range(2):  # alongside an edge, 1e-8 ... 1e-5 edge lengths off it
+                i, j = rng.sample(range(len(v)), 2)
+                d = perp(v[j] - v[i])
+                if d is not None:
+                    acc.append(len(pts))
+                    pts.append(list(v[i] + rng.choice([1e-6, 0.2, 0.5, 0.9, 1 - 1e-6]) * (v[j] - v[i]) + d * 10.0 ** rng.choice([-8, -7, -6, -5])))
+            # exactly on the extension of an edge, both directions (finite, continuous)
+            i, j = rng.sample(range(len(v)), 2)
+            acc.append(len(pts))
+            pts.append(list(v[j] + 2.0 * (v[j] - v[i])))
     return [[float(x) for x in p] for p in pts]
 
 
@@ -130,6 +150,19 @@ def make_cases(ctx, n):
             v = np.array(kw["vertices"], float)
             v[-1] = v[0] + 0.25 * (v[1] - v[0]) + (0.5 * (v[2] - v[0]) if cls == "Tetrahedron" else 0.0) if cls != "Polyline" else v[-2]
             kw["vertices"] = v
+        elif variant == "zero-size" and cls == "TriangularMesh":
+            # one extra face without area (a duplicated vertex): must contribute nothing.  The observers of this variant are kept
+            # outside the body (the inside test of a mesh with a degenerate face is not what is checked here).
+            # The faces are oriented outward here (the bodies are convex) and the mesh checks / the reorientation are skipped: given
+            # the degenerate face, reorient_faces turns such a mesh inside out (a mesh-validity matter, not the sheet kernel).
+            v = np.array(kw["vertices"], float)
+            f = np.array(kw["faces"])
+            cen = v.mean(axis=0)
+            f = np.array([t if np.dot(np.cross(v[t[1]] - v[t[0]], v[t[2]] - v[t[0]]), v[list(t)].mean(axis=0) - cen) > 0 else [t[0], t[2], t[1]] for t in f.tolist()])
+            a, b = int(f[0][0]), int(f[0][1])
+            kw["vertices"] = np.vstack([v, v[a]])
+            kw["faces"] = np.vstack([f, [a, len(v), b]])
+            kw.update(reorient_faces="skip", check_open="skip", check_disconnected="skip", check_selfintersecting="skip")
         elif variant in ("huge", "tiny") and cls != "TriangularMesh":
             s = 1e9 if variant == "huge" else 1e-9
             for k in ("dimension", "diameter", "vertices"):
@@ -140,11 +173,95 @@ def make_cases(ctx, n):
                     else:
                         v = v * s
                     kw[k] = v if np.ndim(v) else float(v)
-        pts = special_points(cls, kw, rng, nps)
+        acc = []
         vertex_singular = cls in ("Triangle", "Tetrahedron", "TriangularMesh")
-        cases.append({"id": i, "cls": cls, "variant": variant, "kw": {k: (np.asarray(v).tolist() if np.ndim(v) else float(v)) for k, v in kw.items()},
-                      "obs": pts, "vertex_singular": vertex_singular})
+        if cls == "TriangularMesh" and variant == "zero-size":
+            v = np.asarray(kw["vertices"], float)
+            rad = float(np.max(np.linalg.norm(v, axis=1)))
+            pts = [[float(x) for x in (lambda d: d / np.linalg.norm(d) * rad * rng.choice([1.01, 1.5, 4.0, 1e3]))(nps.normal(size=3))] for _ in range(8)]
+        else:
+            pts = special_points(cls, kw, rng, nps, acc)
+        cases.append({"id": i, "cls": cls, "variant": variant, "kw": {k: (v if isinstance(v, str) else np.asarray(v).tolist() if np.ndim(v) else float(v)) for k, v in kw.items()},
+                      "obs": pts, "vertex_singular": vertex_singular, "want_values": vertex_singular, "acc": acc})
     return cases
+
+
+# deterministic regression inputs of the two repaired defects of triangle_Bfield (known_findings.json, `fixed`): evaluated on every
+# sweep; they carry the accuracy assertion on every observer
+def regression_cases(first_id):
+    pol = [0.3, -0.7, 0.5]
+    obs = [[1.0, 2.5e-9, 0.0], [1.0, 1e-7, 0.0], [1.0, 1e-9, 1e-9], [1.0 + 1e-6, 1e-12, 0.0], [2.0, 1e-9, 0.0], [0.5, 1e-8, 0.0], [3.0, 0.0, 0.0], [-1.0, 0.0, 0.0]]
+    tet = [[0, 0, 0], [1, 0, 0], [0, 1, 0], [0, 0, 1]]
+    out = [
+        {"cls": "Triangle", "variant": "plain", "kw": {"vertices": tet[:3], "polarization": pol}, "obs": obs},
+        {"cls": "Tetrahedron", "variant": "plain", "kw": {"vertices": tet, "polarization": pol}, "obs": obs},
+        {"cls": "TriangularMesh", "variant": "plain", "kw": {"vertices": tet, "faces": [[0, 2, 1], [0, 1, 3], [1, 2, 3], [0, 3, 2]], "polarization": pol}, "obs": obs},
+        {"cls": "Triangle", "variant": "zero-size", "kw": {"vertices": [[0, 0, 0], [1, 0, 0], [0.25, 0, 0]], "polarization": [0.1, 0.2, 0.3]},
+         "obs": [[0.3, 0.4, 0.5], [0.5, 0.0, 0.0], [2.0, 0.0, 0.0], [0.0, 0.0, 0.0]]},
+        {"cls": "TriangularMesh", "variant": "zero-size", "kw": {"vertices": tet + [[0, 0, 0]], "faces": [[0, 2, 1], [0, 1, 3], [1, 2, 3], [0, 3, 2], [0, 4, 1]], "polarization": pol,
+                                                                 "reorient_faces": "skip", "check_open": "skip", "check_disconnected": "skip", "check_selfintersecting": "skip"},
+         "obs": [[1.0, 1.0, 1.0], [-0.3, 0.4, 2.5], [30.0, -20.0, 10.0]]},
+    ]
+    for k, c in enumerate(out):
+        c.update(id=first_id + k, vertex_singular=True, want_values=True, acc=list(range(len(c["obs"]))), regression=True)
+    return out
+
+
+ACC_TOL = 1e-6  # relative to max(|reference|, |polarization|); the earlier kernel was off by O(1) here, the repaired one is within ~1e-13
+
+
+def accuracy_fails(c, o):
+    """accuracy / exact-zero assertions for the triangle-sheet classes on the tagged observers of one case"""
+    from scipy.constants import mu_0
+
+    from oracles import tri_reference as tr
+    fails = []
+    cls, kw = c["cls"], c["kw"]
+    v = np.asarray(kw["vertices"], float)
+    pol = np.asarray(kw["polarization"], float)
+    if not all("val" in o["res"].get(f, {}) for f in "BHJ"):
+        return fails
+    B, H, J = (np.asarray(o["res"][f]["val"], float) for f in "BHJ")
+    if cls == "Triangle" and c["variant"] == "zero-size":
+        # a triangle without area carries no charge: exactly zero everywhere (earlier: NaN everywhere).  A sliver whose vertices are
+        # collinear only up to rounding has a (noise) normal vector and a tiny finite field: finiteness is asserted by the sweep
+        if np.linalg.norm(np.cross(v[1] - v[0], v[2] - v[0])) != 0:
+            return fails
+        for f, val in (("B", B), ("H", H)):
+            if not np.all(val == 0):
+                fails.append({"key": f"non-zero:Triangle:zero-size:{f}", "desc": f"get{f} of a Triangle without area is not identically 0",
+                              "replay": {"class": cls, "kw": kw, "observer": c["obs"][int(np.argmax(~np.all(val == 0, axis=1)))], "field": f}})
+        return fails
+    if cls == "Tetrahedron" and c["variant"] == "zero-size":
+        return fails  # flat tetrahedron: no outward orientation to build the reference from
+    if cls == "Triangle":
+        tris, sheet = [v], True
+    elif cls == "Tetrahedron":
+        tris, sheet = tr.outward_faces(v, [[0, 1, 2], [0, 1, 3], [0, 2, 3], [1, 2, 3]]), False
+    else:
+        faces = [f for f in np.asarray(kw["faces"]).tolist()]
+        tris, sheet = tr.outward_faces(v, faces), False
+    idx = c["acc"] if not (cls == "TriangularMesh" and c["variant"] == "zero-size") else list(range(len(c["obs"])))
+    for j in idx:
+        x = c["obs"][j]
+        if np.min(np.linalg.norm(v - np.asarray(x), axis=1)) <= 1e-12 * (float(np.max(np.abs(v))) + 1e-300):
+            continue  # a vertex to rounding: documented singular point
+        if not (np.all(np.isfinite(B[j])) and np.all(np.isfinite(H[j]))):
+            continue  # reported by the finiteness assertion
+        ref = tr.sheet_B(tris[0], pol, x) if sheet else tr.body_B(tris, pol, x, J[j])
+        if ref is None:
+            continue  # observer on a closed edge of the reference
+        ref = np.asarray(ref)
+        refH = (ref - (0.0 if sheet else J[j])) / mu_0
+        for f, val, rf, unit in (("B", B[j], ref, 1.0), ("H", H[j], refH, 1.0 / mu_0)):
+            err = float(np.linalg.norm(val - rf) / max(np.linalg.norm(rf), np.linalg.norm(pol) * unit, 1e-300))
+            if err > ACC_TOL:
+                fails.append({"key": f"inaccurate:{cls}:near-edge-line:{f}",
+                              "desc": f"get{f} of a {cls} differs from the extended-precision closed form by a relative {err:.2e} at an observer close to an edge line "
+                                      f"(value {val.tolist()}, reference {rf.tolist()})",
+                              "replay": {"class": cls, "kw": kw, "observer": x, "field": f, "value": val.tolist(), "reference": rf.tolist(), "relative_error": err}})
+                break
+    return fails
 
 
 def run_batch(cases, wall):
@@ -163,7 +280,8 @@ def run_batch(cases, wall):
 
 def sweep(ctx, n):
     cases = make_cases(ctx, n)
-    fails, done, hung = [], 0, 0
+    cases += regression_cases(len(cases))
+    fails, done, hung, acc_done = [], 0, 0, 0
     B = 10
     for i in range(0, len(cases), B):
         batch = cases[i:i + B]
@@ -183,6 +301,11 @@ def sweep(ctx, n):
             continue
         for c, o in zip(batch, out):
             done += len(c["obs"])
+            if c["vertex_singular"]:
+                af = accuracy_fails(c, o)
+                acc_done += len(c.get("acc", []))
+                seen_keys = {f["key"] for f in fails}
+                fails += [f for f in af if f["key"] not in seen_keys][:2]
             for f, r in o["res"].items():
                 if r["shape"] != [1, 1, 1, len(c["obs"]), 3] and r["shape"] != [1, 1, 1, 1, 3]:
                     fails.append({"key": f"shape:{c['cls']}", "desc": f"unexpected output shape {r['shape']}", "replay": {"class": c["cls"]}})
@@ -195,8 +318,8 @@ def sweep(ctx, n):
                     v = np.asarray(c["kw"]["vertices"], float)
                     size = float(np.max(np.abs(v))) + 1e-300
                     bad = [j for j in bad if np.min(np.linalg.norm(v - np.asarray(c["obs"][j]), axis=1)) > 1e-12 * size]
-                    # observers within 1e-7 sizes of a vertex but not the vertex itself: own key (r rounds to l in the second
-                    # branch of the edge integral, log(0))
+                    # observers within 1e-7 sizes of a vertex but not the vertex itself: own key (the earlier edge integral took
+                    # log(0) there, r rounding to l in its second branch; repaired — a recurrence is a violation)
                     nearv = [j for j in bad if np.min(np.linalg.norm(v - np.asarray(c["obs"][j]), axis=1)) < 1e-7 * size]
                     if nearv:
                         fails.append({"key": f"non-finite:{c['cls']}:near-vertex:{f}",
@@ -225,4 +348,4 @@ def sweep(ctx, n):
                     j = bad[0]
                     fails.append({"key": f"non-finite:{c['cls']}:{c['variant']}:{f}", "desc": f"get{f} is not finite at a finite observer",
                                   "replay": {"class": c["cls"], "kw": c["kw"], "observer": c["obs"][j], "field": f}})
-    return fails, {"c15_observers": done, "c15_cases": len(cases), "c15_hung_batches": hung}
+    return fails, {"c15_observers": done, "c15_cases": len(cases), "c15_hung_batches": hung, "c15_triangle_accuracy_observers": acc_done}
